@@ -1126,6 +1126,16 @@ private:
       {
         try { c.listenerReady->set_value(false); } catch (...) {}
       }
+      if (c.t == Cmd::Connect)
+      {
+        // connect() already returned this id to the application: it must still get its terminal event.
+        decltype(_cbs.onClose) closeCb;
+        { std::lock_guard<std::mutex> g(_cbMutex); closeCb = _cbs.onClose; }
+        if (closeCb)
+        {
+          closeCb(c.c.sid, TransportErrorInfo{TransportError::ShuttingDown, "connect: transport shutting down", 0, 0});
+        }
+      }
     }
     if (_epollFd >= 0)
     {
